@@ -168,6 +168,7 @@ def tokOfX : EOp → Option Term.Tok
     else if f ∈ twoPs ∧ pm.length > 2 then tokOf (.csi [f] (pm.take 2))
     else tokOf (.csi [f] pm)
   | .osc payload _ => osc8Tok payload
+  | .esc [99] => some .ris
   | op => tokOf op
 
 end VaxisModel.Model.EmuAbs
